@@ -119,6 +119,8 @@ type c12SignCase struct {
 	// documented pointer forms: 1 Countersignature value under 11, 2 under 7, 3 []Countersignature under 11,
 	// 4 under 7, 5 a nil *Countersignature under 11
 	OddCsig int `json:"odd_csig,omitempty"`
+	// ManyExtra: that many further private-use parameters in the base headers (even: unprotected, odd: protected)
+	ManyExtra int `json:"many_extra,omitempty"`
 }
 
 func (c *c12SignCase) payload() cose.HashEnvelopePayload {
@@ -147,6 +149,17 @@ func checkC12Sign(c c12SignCase) error {
 		return err
 	}
 	p, u := applyEdits(b.Prot, b.Unprot, c.Edits)
+	for i := 0; i < c.ManyExtra; i++ {
+		e := rc.E(rc.Text(fmt.Sprintf("extra-%d", i)), rc.Int(int64(i)))
+		if c.ManyExtra%2 == 0 {
+			u = rc.Val{K: rc.KMap, M: append(append([]rc.KV{}, u.M...), e)}
+		} else {
+			p = rc.Val{K: rc.KMap, M: append(append([]rc.KV{}, p.M...), e)}
+		}
+	}
+	if c.ManyExtra > 0 {
+		stats.Class("envelope-with-very-many-header-parameters")
+	}
 	h := bridge.Headers(p, u)
 	if c.RawProt {
 		h.RawProtected = protBstr(p)
@@ -357,6 +370,9 @@ func TestC12_Sign(t *testing.T) {
 		}
 		if rapid.IntRange(0, 9).Draw(rt, "oddcsig") == 0 {
 			c.OddCsig = rapid.IntRange(1, 5).Draw(rt, "oddcsig-kind")
+		}
+		if rapid.IntRange(0, 19).Draw(rt, "many-extra") == 0 {
+			c.ManyExtra = rapid.SampledFrom([]int{64, 65, 256, 257, 1000, 1001}).Draw(rt, "many-extra-n")
 		}
 		stats.Eval()
 		if len(c.Edits) > 0 || c.Base.CtyKind != 0 || c.Base.Location != "" || c.CtyOdd != 0 {
